@@ -96,6 +96,9 @@ directive @range(min: Int, max: Int, mid: Int, mip: Int, miq: Int, mir: Int) on 
 `
 
 var detDocs = []string{
+	// several different variable names each declared more than once
+	`query Q($a: Int, $b: Int, $c: Int, $a: Int, $b: Int, $c: Int, $d: Int, $d: Int) { box(width: $a, height: $b) item(id: 1) { id } }`,
+	`query Q($z: Int, $y: Int, $z: Int, $x: Int, $y: Int, $x: Int, $w: Int, $w: Int, $v: Int, $v: Int) { dog { name } }`,
 	// a misspelt argument of a DIRECTIVE whose definition declares several arguments at the same distance
 	`{ dog { name @range(mix: 3) } }`, `{ dog { name @range(mi: 1) barks @range(mxx: 1, mii: 2) } }`, `query Q @range(mis: 1) { dog { name } ...F @range(mit: 2) } fragment F on Query { dog { barks @range(ma: 1, mi: 2, m: 3) } }`,
 	`fragment F on Itex { id } { ...F }`, `fragment F on Itey { id } { ...F }`, `fragment F on iTEM { id } fragment G on ItEM { id } { ...F ...G }`, `fragment F on Ite { id } { ...F }`, `fragment F on Dox { x } { ...F }`, `{ ... on item { id } }`, `query($v: Itam) { item(id: 1) { id } }`,
